@@ -937,6 +937,12 @@ func (d *driver) ledgerMutants() []mutant {
 	add("peer-with-two-addresses", func(p *client.LedgerChannelProposalMsg) {
 		p.Peers = []wmap{{0: d.B.addr[0], 1: simwire.NewRandomAddress(d.g.R)}, d.A.addr}
 	})
+	add("peer-0-empty-map", func(p *client.LedgerChannelProposalMsg) { p.Peers = []wmap{{}, d.A.addr} })
+	add("peer-1-empty-map", func(p *client.LedgerChannelProposalMsg) { p.Peers = []wmap{d.B.addr, {}} })
+	add("peers-empty-maps", func(p *client.LedgerChannelProposalMsg) { p.Peers = []wmap{{}, {}} })
+	add("receiver-with-two-addresses", func(p *client.LedgerChannelProposalMsg) {
+		p.Peers = []wmap{d.B.addr, {0: d.A.addr[0], 1: simwire.NewRandomAddress(d.g.R)}}
+	})
 	add("funding-agreement-differs", func(p *client.LedgerChannelProposalMsg) { // allowed for ledger channels
 		fa := p.FundingAgreement.Clone()
 		fa[0][0], fa[0][1] = fa[0][1], fa[0][0]
@@ -1078,6 +1084,9 @@ func (d *driver) virtMutants(ctx ctxSnap, full bool) []mutant {
 	add("receiver-is-not-peer-1", func(p *client.VirtualChannelProposalMsg) { p.Peers = []wmap{d.B.addr, d.I.addr} })
 	add("peers-swapped", func(p *client.VirtualChannelProposalMsg) { p.Peers = []wmap{d.A.addr, d.B.addr} })
 	add("three-peers", func(p *client.VirtualChannelProposalMsg) { p.Peers = []wmap{d.B.addr, d.A.addr, d.I.addr} })
+	add("peer-0-empty-map", func(p *client.VirtualChannelProposalMsg) { p.Peers = []wmap{{}, d.A.addr} })
+	add("peer-1-empty-map", func(p *client.VirtualChannelProposalMsg) { p.Peers = []wmap{d.B.addr, {}} })
+	add("peers-empty-maps", func(p *client.VirtualChannelProposalMsg) { p.Peers = []wmap{{}, {}} })
 	add("one-parent", func(p *client.VirtualChannelProposalMsg) { p.Parents = p.Parents[:1] })
 	add("only-own-parent", func(p *client.VirtualChannelProposalMsg) { p.Parents = p.Parents[1:] })
 	add("no-parents", func(p *client.VirtualChannelProposalMsg) { p.Parents = nil })
